@@ -14,7 +14,8 @@ RULE = ('Generated histories by two clients (same user, shared-key user or indep
         'cache directory; encrypted or not). Every list-snapshots / list-files / restore / delete / clean is first executed '
         'on copies of the backend under each cache universe - disabled (reference), the client\'s current (warm or stale) '
         'cache, an empty cache, the other client\'s cache, and the current cache with one entry put into an '
-        'interrupted-write state (missing / empty / generated proper prefix) - and stdout, return value, restored tree, '
+        'interrupted-write state (missing / empty / generated proper prefix), and a cache left behind by a child process that was '
+        'really killed (os._exit) at its k-th file-system step inside the cache directory - and stdout, return value, restored tree, '
         'exception type and resulting object set must equal the cache-disabled run. Non-trivial: some universe whose cache '
         'content differs from what the backend lists (stale, foreign or truncated entry for a listed snapshot).')
 ASSUMPTIONS = ['an interrupted cache write leaves the entry missing, empty or a proper prefix',
@@ -47,6 +48,8 @@ def cases(draw):
             op['file_regex'] = draw(st.sampled_from([None, None, 'p1', 'p[02]$']))
         op['damage'] = {'pick': draw(st.integers(0, 5)), 'kind': draw(st.sampled_from(['missing', 'empty', 'prefix'])),
                         'len': draw(st.integers(0, 10 ** 6))}
+        if draw(st.integers(0, 2)) == 0:
+            op['kill'] = {'at': draw(st.integers(1, 8)), 'partial': draw(st.integers(0, 10 ** 6))}
         ops.append(op)
     return {'settings': s, 'contents': contents, 'second': draw(st.sampled_from(['same', 'shared', 'independent'])),
             'shared_cache': draw(st.booleans()), 'ops': ops, 'concurrent': draw(st.sampled_from([1, 2, 4])),
@@ -106,6 +109,35 @@ def _execute(case, store, cred, op, cache, work, tag, own_names):
             'objects': sorted(store.objects)}
 
 
+def _killed_writer(case, store, cred, cache_dir, work, kill):
+    """Let a child process load the snapshots with `cache_dir` as (empty) cache and die at its k-th cache-directory
+    file-system step. Returns the crash kind, or None when the child completed before reaching step k."""
+    import json
+    import subprocess
+    import sys
+    job = {'repo': env.REPO, 'verif': env.VERIF, 'cache': cache_dir, 'log': os.path.join(work, 'cachechild.log'), 'n': case['concurrent'],
+           'objects': {k: v.hex() for k, v in store.objects.items()}, 'crash_at': kill['at'], 'partial': kill['partial'],
+           'password': cred.password.hex() if cred.password else None, 'key': cred.key.hex() if cred.key else None}
+    jp = os.path.join(work, 'cachejob.json')
+    with open(jp, 'w') as f:
+        json.dump(job, f)
+    p = subprocess.run([sys.executable, os.path.join(env.VERIF, 'vk', 'cachechild.py'), jp], capture_output=True, text=True, timeout=300,
+                       env=dict(os.environ, PYTHONHASHSEED='0', VERIF_REPO=env.REPO, VK_SCRATCH=env.scratch_root()), cwd=env.VERIF)
+    events = []
+    if os.path.exists(job['log']):
+        for line in open(job['log']):
+            try:
+                events.append(json.loads(line))
+            except ValueError:
+                pass
+    crash = next((e for e in events if 'crash' in e), None)
+    if crash is None:
+        if not any('completed' in e for e in events):
+            raise RuntimeError(f'cache child failed (exit {p.returncode}): {p.stderr[-1200:]}')
+        return None
+    return crash['crash']
+
+
 def _run(case, work):
     s = case['settings']
     enc = s.get('encryption') is not None
@@ -127,6 +159,7 @@ def _run(case, work):
     for c in caches:
         os.makedirs(c, exist_ok=True)
     own = [[], []]          # live snapshot names per client identity
+    killed_done = [False]
     nontrivial = False
     src = os.path.join(work, 'src')
     serial = 0
@@ -184,6 +217,16 @@ def _run(case, work):
                 classes.append('interrupted-entry:' + kind)
                 nontrivial = True
         universes['damaged'] = dmg
+        if listed and op.get('kill') and not killed_done[0]:
+            # a writer killed for real at its k-th file-system step inside the cache directory (whatever write protocol is used)
+            killed_done[0] = True
+            kd = os.path.join(work, f'u{serial}-killed')
+            os.makedirs(kd)
+            crash = _killed_writer(case, store, cred, kd, work, op['kill'])
+            if crash is not None:
+                universes['killed-writer'] = kd
+                classes.append('killed-writer:' + crash)
+                nontrivial = True
         # staleness of the current cache wrt the listing
         cached = set()
         for dp, _, fns in os.walk(caches[c]):
